@@ -7,24 +7,7 @@
 (* (0, 90, 180, 270 degrees, and the 3-4-5 / 5-12-13 angles, either sign); *)
 (* rotation axes are rational unit vectors.                                *)
 (***************************************************************************)
-EXTENDS Integers, Sequences, FiniteSets, TLC
-
-AbsI(x) == IF x < 0 THEN -x ELSE x
-RECURSIVE GCD(_, _)
-GCD(a, b) == IF b = 0 THEN a ELSE GCD(b, a % b)
-Norm(r) == LET s == IF r[2] < 0 THEN <<-r[1], -r[2]>> ELSE r
-               g == GCD(AbsI(s[1]), s[2]) IN
-           IF s[1] = 0 THEN <<0, 1>> ELSE <<s[1] \div g, s[2] \div g>>
-R(n) == <<n, 1>>
-Q(n, d) == Norm(<<n, d>>)
-\* least-common-denominator addition and cross-cancelling multiplication keep the intermediate integers small (TLC integers are 32 bit)
-RAdd(a, b) == LET g == GCD(a[2], b[2]) IN Norm(<<a[1] * (b[2] \div g) + b[1] * (a[2] \div g), (a[2] \div g) * b[2]>>)
-RSub(a, b) == RAdd(a, <<-b[1], b[2]>>)
-RMul(a, b) == IF a[1] = 0 \/ b[1] = 0 THEN <<0, 1>>
-              ELSE LET g1 == GCD(AbsI(a[1]), b[2])  g2 == GCD(AbsI(b[1]), a[2]) IN Norm(<<(a[1] \div g1) * (b[1] \div g2), (a[2] \div g2) * (b[2] \div g1)>>)
-RNeg(a) == <<-a[1], a[2]>>
-Zero == R(0)
-One == R(1)
+EXTENDS Rat
 
 Row(a, b, c, d) == <<a, b, c, d>>
 Ident == <<Row(One, Zero, Zero, Zero), Row(Zero, One, Zero, Zero), Row(Zero, Zero, One, Zero), Row(Zero, Zero, Zero, One)>>
